@@ -211,13 +211,31 @@ theorem takeToBrace_name (n rest : Str) (hn : ∀ c ∈ n, c ≠ '}' ∧ c ≠ '
     rw [takeToBrace.eq_def]
     split <;> simp_all
 
+theorem startsWith_length : ∀ (a p : Str), startsWith a p = true → p.length ≤ a.length
+  | _, [], _ => by simp
+  | [], _ :: _, h => by simp [startsWith] at h
+  | x :: a, c :: p, h => by
+    simp only [startsWith, Bool.and_eq_true] at h
+    have := startsWith_length a p h.2
+    simp; omega
+
+/-- what `BRACKETED_TAG_REGEX` extracts from `${n}…`: the `last-saved#` marker (if `n` starts with it) and the name -/
 theorem matchRef_name (n rest : Str) (hn : NameOk n) :
-    matchRef (n ++ '}' :: rest) = some (false, n, rest) := by
-  have h1 : startsWith (n ++ '}' :: rest) lastSavedTag = false := by
-    rw [startsWith_sep '}' rest n lastSavedTag (by decide)]
-    exact hn.2
-  have h2 := takeToBrace_name n rest (fun c hc => ⟨(hn.1 c hc).1, (hn.1 c hc).2.1⟩)
-  simp [matchRef, h1, h2]
+    matchRef (n ++ '}' :: rest) =
+      some (startsWith n lastSavedTag, (if startsWith n lastSavedTag then n.drop lastSavedTag.length else n), rest) := by
+  have h1 : startsWith (n ++ '}' :: rest) lastSavedTag = startsWith n lastSavedTag :=
+    startsWith_sep '}' rest n lastSavedTag (by decide)
+  cases hs : startsWith n lastSavedTag with
+  | false =>
+    have h2 := takeToBrace_name n rest (fun c hc => ⟨(hn c hc).1, (hn c hc).2.1⟩)
+    simp [matchRef, h1, hs, h2]
+  | true =>
+    have hl := startsWith_length n lastSavedTag hs
+    have hd : (n ++ '}' :: rest).drop lastSavedTag.length = n.drop lastSavedTag.length ++ '}' :: rest :=
+      List.drop_append_of_le_length hl
+    have h2 := takeToBrace_name (n.drop lastSavedTag.length) rest
+      (fun c hc => ⟨(hn c (List.mem_of_mem_drop hc)).1, (hn c (List.mem_of_mem_drop hc)).2.1⟩)
+    simp [matchRef, h1, hs, hd, h2]
 
 theorem escText_plain (n : Str) (hn : ∀ c ∈ n, c ≠ '&' ∧ c ≠ '<' ∧ c ≠ '>') : escText n = n := by
   induction n with
@@ -234,7 +252,7 @@ theorem escText_refMarkup (n : Str) (hn : NameOk n) : escText (refMarkup n) = re
   rcases hc with (rfl | rfl | hc) | rfl
   · decide
   · decide
-  · exact ⟨(hn.1 c hc).2.2.1, (hn.1 c hc).2.2.2.1, (hn.1 c hc).2.2.2.2⟩
+  · exact ⟨(hn c hc).2.2.1, (hn c hc).2.2.2.1, (hn c hc).2.2.2.2⟩
   · decide
 
 /-- all names are delimitable and known, all literal texts are free of `${` -/
@@ -271,7 +289,9 @@ theorem subTo_tail (refs : List (Str × Str)) : ∀ (tail items : List (Str × S
           simp [Cell.tailText, refMarkup, escText_cons, escTextChar] at h') t ht
       simp only [Cell.tailText, escText_append, escText_refMarkup n hn, itemsMarkup]
       simp only [refMarkup, List.cons_append, List.append_assoc]
-      refine SubTo.ref (matchRef_name n _ hn) hv ?_ h1
+      refine SubTo.ref (matchRef_name n _ hn) (by
+        unfold varReplName at hv
+        cases hs : startsWith n lastSavedTag <;> simp_all) ?_ h1
       simp only [List.length_append, List.length_cons]
       omega
     · simp at hr
